@@ -148,6 +148,33 @@ func runC15(t *testing.T, c *choice.Stream, r *Result, opt RunOpt) {
 		ok := string(sink.Got) == string(prefix)+string(ref.B)
 		line("WriteColumn after-%d-bytes %s %d bytes err=%v; equals reference: %v", len(prefix), shaHex(sink.Got), len(sink.Got), err, ok)
 	}
+	{
+		// two columns of this codec through one writer, flushed once: what the first
+		// chained must still be there when the second has been written
+		vals2 := gen.Values(c.Sub("vals2"), rt, c.Range("rows2", 1, 9))
+		var ref2 refproto.W
+		if err := refproto.EncodeData(&ref2, rt, vals2); err != nil {
+			panic(err)
+		}
+		col, col2 := fill(), cd.New()
+		if err := gen.Fill(col2, rt, vals2); err != nil {
+			panic(err)
+		}
+		sink := &simio.FaultySink{FailAfter: -1}
+		w := proto.NewWriter(sink, new(proto.Buffer))
+		// the longer one first: whatever scratch memory the first write borrowed is
+		// large enough for the second (so that the outcome does not depend on what
+		// earlier cases of this process left in a pool)
+		want := string(ref.B) + string(ref2.B)
+		if len(ref2.B) > len(ref.B) {
+			col, col2 = col2, col
+			want = string(ref2.B) + string(ref.B)
+		}
+		col.WriteColumn(w)
+		col2.WriteColumn(w)
+		_, err := w.Flush()
+		line("WriteColumn x2 %s %d bytes err=%v; equals reference: %v", shaHex(sink.Got), len(sink.Got), err, string(sink.Got) == want)
+	}
 	// ---- decode: fresh and used-then-reset targets ----
 	// the source hands the bytes over at once or in pieces (a column is seldom
 	// alone in a read buffer, and a transport delivers what it has)
